@@ -5,5 +5,5 @@ tier=${1:-quick}; shift
 props=${@:-C01 C02 C03 C04 C05 C06 C07 C08 C09 C10 C11 C13 C14 C16 C17 C18 C19 C20}
 cd /verif
 for p in $props; do
-  ./bin/verif check --property $p --tier $tier 2>&1 | grep -E "^(VIOLATION|UNDECIDED|TOOL-ERROR|KNOWN-FINDING|property=)" | cut -c1-220
+  ./bin/verif check --property $p --tier $tier 2>&1 | grep -E "^(VIOLATION|UNDECIDED|TOOL-ERROR|KNOWN-FINDING|property=)" | cut -c1-220 | awk '/^TOOL-ERROR/{t++; if (t>4) next} /^VIOLATION/{v++; if (v>8) next} {print}' 
 done
